@@ -10,7 +10,7 @@ open Wp
 
     step = <op>:<catch 0|1|2>:<disc -|int>
     op   = A<headers><subprotocol><badsub> | C(n|x|<int>)[+] | St<hex> | Sb<hex> | Smt<doc> | Smb<doc> | Rt | Rd | Rm |
-           H<status> | T<status> | X | B
+           H<status> | T<status> | X | B | E<class>  (class = ona|pte|vei|veo|ose|ae|wsdn|wsd<code>: raised by the script itself)
     <hex> = the payload in hex (`-` = empty); a text payload is the hex of its UTF-8 encoding
     <doc> = `!` (an object the JSON encoder rejects) or the hex of the UTF-8 JSON text of the document
     in   = r<key>/<key> (text key, bytes key; key = a (absent) | n (None) | v<hex>) | dn | d<code>
@@ -45,6 +45,20 @@ def parseDoc (r : List Char) : Option JDoc :=
     | some s => (Js.loads s).map some
     | none => none
 
+/-- `E<class>`: the script itself raises an exception of one of the framework's own classes (by hand, or out of an operation on
+    another connection's socket): ona | pte | vei | veo | ose | ae | wsdn | wsd<code> (the argument of `WebSocketDisconnected(...)`) -/
+def parseExc (r : List Char) : Option Exc :=
+  match r with
+  | ['o', 'n', 'a'] => some .notAllowed
+  | ['p', 't', 'e'] => some .payloadType
+  | ['v', 'e', 'i'] => some .invalidCloseCode
+  | ['v', 'e', 'o'] => some .valueOther
+  | ['o', 's', 'e'] => some .osErr
+  | ['a', 'e'] => some .assertion
+  | ['w', 's', 'd', 'n'] => some (Ws.wsd none)
+  | 'w' :: 's' :: 'd' :: r => (String.ofList r).toInt?.map fun c => Ws.wsd (some c)
+  | _ => none
+
 def parseOp (s : String) : Option (Op JDoc) :=
   match s.toList with
   | ['A', h, p, b] => some (.accept (b01 h) (b01 p) (b01 b))
@@ -66,6 +80,7 @@ def parseOp (s : String) : Option (Op JDoc) :=
   | 'T' :: r => (String.ofList r).toInt?.map .raiseStatus
   | ['X'] => some .raiseExc
   | ['B'] => some .raiseBoom
+  | 'E' :: r => (parseExc r).map .raiseOf
   | _ => none
 
 def parseKeyT (s : String) : Option (Key Text) :=
